@@ -13,6 +13,7 @@ import (
 	"strings"
 
 	"github.com/benbjohnson/litestream/internal/vx"
+	"github.com/superfly/ltx"
 )
 
 // ---- cut points shared with other harnesses -------------------------------
@@ -41,7 +42,53 @@ func (db *DB) setPersistWAL(ctx context.Context) error {
 	return nil
 }
 
+// vxGhostWAL, when set, turns the WAL-copy stand-in into a contract model of one
+// verify+sync round (decided for the real code by VxC01Sync, VxC09Budget and the
+// C04 harnesses): the WAL holds `pending` committed chunks not yet copied; an
+// unbounded round (maxSyncWALBytes == 0) copies all of them, a bounded one copies
+// one chunk and reports `limited` while more remain; every copying round
+// publishes one level-0 file numbered pos+1.
+type vxGhostWALState struct {
+	pending   int
+	rounds    int
+	published int // level-0 files written by copying rounds
+	maxSeen   int64
+	lastOpen  bool // the last round stopped short of the end of the WAL
+}
+
+var vxGhostWAL *vxGhostWALState
+
 func (db *DB) verifyAndSyncWithExecutor(ctx context.Context, checkpointing bool, exec *syncExecutor, maxSyncWALBytes int64) (syncResult, error) {
+	if g := vxGhostWAL; g != nil {
+		g.rounds++
+		g.maxSeen = maxSyncWALBytes
+		off := exec.state.lastSyncedWALOffset
+		if off == 0 {
+			off = WALHeaderSize
+		}
+		if g.pending == 0 {
+			g.lastOpen = false
+			return syncResult{origWALSize: off, newWALSize: off, syncedToWALEnd: true}, nil
+		}
+		n := g.pending
+		if maxSyncWALBytes > 0 {
+			n = 1
+		}
+		g.pending -= n
+		g.published++
+		g.lastOpen = g.pending > 0
+		txid := exec.pos.TXID + 1
+		f := &vxLTX{level: 0, min: txid, max: txid, commit: 2, ts: int64(1000 + txid), pages: []vxPg{{1, uint64(txid)}}}
+		if txid == 1 {
+			f.pages = []vxPg{{1, 1}, {2, 1}}
+		}
+		b := vxEncodeLTX(f)
+		vx.FSWriteFile(db.LTXPath(0, txid, txid), b)
+		pos := ltx.Pos{TXID: txid}
+		off += int64(n) * int64(WALFrameHeaderSize+db.pageSize)
+		return syncResult{origWALSize: off, newWALSize: off, synced: true, limited: g.pending > 0, syncedToWALEnd: g.pending == 0, pos: &pos,
+			l0FileInfo: &ltx.FileInfo{Level: 0, MinTXID: txid, MaxTXID: txid, Size: int64(len(b))}}, nil
+	}
 	if !vxSyncStub {
 		return db.verifyAndSyncWithExecutorReal(ctx, checkpointing, exec, maxSyncWALBytes)
 	}
